@@ -53,3 +53,38 @@ Theorem C02_fixpoint : forall vs, Forall (printable false) vs ->
   g_result g = GOk /\ concat (map (fun e => match e with OOut b => b | OErr _ => [] end) (g_events g)) = out.
 Proof. exact go_fixpoint. Qed.
 Print Assumptions C02_fixpoint.
+
+(* floats: the side condition flt_okb (inside printable) is discharged for every finite double that From<f64> leaves a float; printing then reading a finite double is the identity *)
+From Jawk Require Import Base F64 Json PrinterProofs FloatText FloatOk.
+
+(* the shortest positional text of a finite double reads back as the same bit pattern *)
+Theorem C02_float_roundtrip :
+  forall (bits : N) (s : bool) (m e : Z),
+    f_decode bits = FFin s m e -> (bits < 18446744073709551616)%N -> dec2flt (flt2dec bits) = Some bits.
+Proof. exact flt2dec_dec2flt. Qed.
+Print Assumptions C02_float_roundtrip.
+
+(* the digit search never runs out of fuel (17 digits always suffice) and its result rounds back to the double *)
+Theorem C02_float_shortest :
+  forall (bits : N) (s : bool) (m e : Z),
+    f_decode bits = FFin s m e ->
+    (0 < m)%Z ->
+    let
+    '(c, p) := shortest m e in
+     (0 < c)%Z /\ (let '(cn, cd) := mul_pow10 c 1 p in round_mag cn cd = f_mag (Z.of_N bits)).
+Proof. exact shortest_roundtrips. Qed.
+Print Assumptions C02_float_shortest.
+
+(* the decidable side condition holds for every finite double that is not normalised to an integer *)
+Theorem C02_float_printable :
+  forall (f : N) (s : bool) (m e : Z),
+    (f < 18446744073709551616)%N -> f_decode f = FFin s m e -> num_of_f f = NFlt f -> flt_okb f = true.
+Proof. exact flt_okb_finite. Qed.
+Print Assumptions C02_float_printable.
+
+(* every number From<f64> produces from a finite pattern satisfies num_ok, the number part of printable *)
+Theorem C02_number_printable :
+  forall (f : N) (s : bool) (m e : Z),
+    (f < 18446744073709551616)%N -> f_decode f = FFin s m e -> num_ok (num_of_f f).
+Proof. exact num_of_f_ok. Qed.
+Print Assumptions C02_number_printable.
